@@ -142,7 +142,8 @@ class Runner:
         for role in op.get("listeners", []):
             o = ent["listeners"].get(role)
             if o is None:
-                o = getattr(mod, pn + "_" + role)()
+                lcls = getattr(mod, pn + "_" + role)
+                o = lcls(tag) if getattr(lcls, "_sim_takes_tag", False) else lcls()
                 o._sim_tag = tag
                 o._sim_role = role
                 ent["listeners"][role] = o
@@ -333,7 +334,8 @@ class Runner:
         for role in op["listeners"]:
             o = ent["listeners"].get(role)
             if o is None:
-                o = getattr(mod, render.pyname(p) + "_" + role)()
+                lcls = getattr(mod, render.pyname(p) + "_" + role)
+                o = lcls(ent.get("tag_as", op["inst"])) if getattr(lcls, "_sim_takes_tag", False) else lcls()
                 o._sim_tag = ent.get("tag_as", op["inst"])
                 o._sim_role = role
                 ent["listeners"][role] = o
